@@ -3,7 +3,10 @@ faithfully; GriddedPSFModel / ImagePSF are independent of evaluation history.
 
 Shape (C) for the functional models, ImagePSF and GriddedPSFModel (full
 products over the alphabets returned by ``alphabets()``), shape (A) (explorer
-BFS, depth <= 3/4) for the evaluation-history part.
+BFS, depth <= 3/4) for the evaluation-history part: 'mixed' roots (few positions,
+all operations, deep) and 'cells' / 'cells-deep' roots (wide / tall grids, a
+position in every grid cell, every ordered pair / triple of cells with and without
+a copy in between).
 
 Oracles (mcphot/ref/psfref.py, no photutils code):
   prf-sum        sum over the integer pixel grid (+-9.5 sigma) == flux
@@ -33,7 +36,16 @@ RULE = ('full Cartesian products: (model class x width(s) x theta x sub-pixel ce
         'models; (data shape x oversampling x origin x (x_0,y_0) x flux x fill_value) for ImagePSF; (grid layout x '
         'input order x oversampling x model position x fill_value) for GriddedPSFModel; plus BFS over all histories '
         'of {evaluate at position k, evaluate() with explicit parameters, copy, deepcopy, evaluate-on-a-copy, '
-        'parameter / fill_value / oversampling / origin assignment} to the stated depth on one instance. A product '
+        'parameter / fill_value / oversampling / origin assignment} to the stated depth on one instance (roots of mode '
+        '"mixed": 2x3, irregular 3x3, 1x3 grids and an ImagePSF; 6-9 positions of every kind: grid point, cell centre, '
+        'generic interior, grid line, outside), plus, on wide and tall grids (rows x columns 3x5 and 5x3; thorough also '
+        '3x6 and 6x4; roots of mode "cells"), BFS over all histories of {call, evaluate(), call on a copy(), call on a '
+        'deepcopy()} x {a generic interior position of EVERY grid cell (same x_0 along a column, same y_0 along a row), '
+        'a second position of one cell with the same integer part and different fraction, an interior grid point and two '
+        'positions in different cells that round to it, the mirror image (y, x) of a cell position} + {replace by copy, '
+        'replace by deepcopy}: depth 2 (every ordered pair of cells x every pair of ways of evaluating), and (roots of mode '
+        '"cells-deep") over {call} x {the same positions} + {replace by copy, replace by deepcopy} to depth 3 (thorough: 4 '
+        'on the 3x5 / 5x3 grids). Grid layout names are ROWS x COLUMNS. A product '
         'case is non-trivial when the model output on its evaluation grid is non-constant and contains at least 90% '
         'of the flux (functional models) / the checked sample set is non-empty and at least two reference arrays '
         'have non-zero weight or the position is clamped (gridded); a history is non-trivial when it contains an '
@@ -45,7 +57,10 @@ ASSUMPTIONS = ['numpy, math, scipy.special.erf/j0/j1 and numpy Gauss-Legendre no
                'the tails of the Moffat and Airy integrals beyond the last quadrature radius use the documented '
                'profile (closed-form encircled energy); the numerical part is executed on the real code',
                'an astropy Model instance behaves as a function of its class and its __dict__ (state digest)',
-               'widths are taken from a finite alphabet >= 0.2 px; defects between alphabet points are outside the bound']
+               'widths are taken from a finite alphabet >= 0.2 px; defects between alphabet points are outside the bound',
+               'evaluation histories visit every cell of grids up to 3x5 / 5x3 (thorough 3x6 / 6x4) rows x columns: a '
+               'per-cell or per-grid-point bookkeeping error that needs a larger grid, more than 3 (thorough 4) '
+               'evaluations, or two particular positions inside cells that the alphabet does not contain is outside the bound']
 
 F2S = R.F2S
 
@@ -642,6 +657,15 @@ LAYOUTS = {
     '1x1': ([12], [7]),
     '3x2': ([0.0, 55.0], [-20.0, 0.0, 31.5]),
     '4x4': ([0, 40, 160, 200], [0, 60, 140, 200]),
+    # Wide ('w': columns >= rows + 2) and tall ('t': rows >= columns + 2) grids with >= 3 rows and columns; names are
+    # ROWS x COLUMNS like the others.  Every flat cell / grid-point numbering that uses the wrong extent (rows for
+    # columns, cells for points, ...) is injective on square and 2-row grids and collides only here.  The two axes share
+    # their first three coordinates, so that the mirror image (y, x) of a position of cell (row 1, column 0) lies in the
+    # different cell (row 0, column 1) and mirrored grid points (0, 40) / (40, 0) exist.
+    '3x5w': ([0, 40, 100, 130, 200.5], [0, 40, 100]),
+    '5x3t': ([0, 40, 100], [0, 40, 100, 130, 200.5]),
+    '3x6w': ([0, 40, 100, 130, 200.5, 260], [0, 40, 100]),
+    '6x4t': ([0, 40, 100, 130], [0, 40, 100, 130, 200.5, 260]),
 }
 
 
@@ -688,6 +712,67 @@ def grid_positions(layout, seed):
         if (k, p) not in out:
             out.append((k, p))
     return out
+
+
+def cell_of(layout, p):
+    """(row, column) of the grid cell used for position p: the cell whose lower-left corner is the last grid
+    coordinate strictly below p, clamped to the grid (a position ON a grid line has weight 0 for one side, so
+    either neighbour gives the same blend; this returns the lower one)."""
+    xg, yg = LAYOUTS[layout]
+
+    def idx(g, v):
+        k = sum(1 for t in g if t < v) - 1
+        return min(max(k, 0), max(len(g) - 2, 0))
+    return idx(yg, p[1]), idx(xg, p[0])
+
+
+def cell_positions(layout, seed):
+    """Position alphabet of the 'cells' history roots: [(kind, (px, py)), ...].
+
+    cell-generic       one generic interior point of EVERY cell (row-major).  All cells of a column share the same
+                       x_0 and all cells of a row the same y_0 (keys built from x only / y only collide), and every
+                       ordered pair of cells occurs in a history of two evaluations;
+    same-integer-part  a second point of the first cell with the same floor() and the same round() in both
+                       coordinates but different fractions (keys built from truncated / rounded positions);
+    at-grid-point, rounds-to-grid-point
+                       an interior grid point G with integer coordinates and two points 0.2-0.3 px from it in the two
+                       diagonal neighbour cells: three different cells, one rounded position;
+    mirrored           the mirror image (y, x) of the generic point of cell (row 1, column 0); it lies in cell
+                       (row 0, column 1) (symmetric keys: x_0 + y_0, x_0 * y_0, sorted pairs)."""
+    g1, g2 = _generic(seed)
+    xg, yg = [float(t) for t in LAYOUTS[layout][0]], [float(t) for t in LAYOUTS[layout][1]]
+    assert len(xg) >= 3 and len(yg) >= 3 and xg[:3] == yg[:3]
+    fx, fy = g1, 1.0 - g2
+    cellpt = {}
+    pos = []
+    for iy in range(len(yg) - 1):
+        for ix in range(len(xg) - 1):
+            p = (xg[ix] + fx * (xg[ix + 1] - xg[ix]), yg[iy] + fy * (yg[iy + 1] - yg[iy]))
+            cellpt[(iy, ix)] = p
+            pos.append(('cell-generic', p))
+
+    def twin(v):
+        # the candidate of the same half-pixel (same floor(), same round()) that is farther from v's fraction
+        f = v - math.floor(v)
+        half = 0.0 if f < 0.5 else 0.5
+        f2 = max((half + 0.07 + 1e-5 * math.pi, half + 0.43 - 1e-5 * math.e), key=lambda c: abs(c - f))
+        return math.floor(v) + f2
+    p0 = cellpt[(0, 0)]
+    t0 = (twin(p0[0]), twin(p0[1]))
+    assert all(math.floor(a) == math.floor(b) and round(a) == round(b) and a != b for a, b in zip(p0, t0))
+    pos.append(('same-integer-part', t0))
+    G = (xg[len(xg) // 2], yg[len(yg) // 2])
+    assert G[0] == round(G[0]) and G[1] == round(G[1]) and xg[0] < G[0] < xg[-1] and yg[0] < G[1] < yg[-1]
+    A, B = (G[0] - 0.3, G[1] + 0.2), (G[0] + 0.2, G[1] - 0.3)
+    assert (round(A[0]), round(A[1])) == (round(B[0]), round(B[1])) == G
+    pos += [('at-grid-point', G), ('rounds-to-grid-point', A), ('rounds-to-grid-point', B)]
+    assert len({cell_of(layout, q) for q in (G, A, B)}) == 3
+    o = cellpt[(1, 0)]
+    M = (o[1], o[0])
+    assert cell_of(layout, o) == (1, 0) and cell_of(layout, M) == (0, 1)
+    pos.append(('mirrored', M))
+    assert len({p for _, p in pos}) == len(pos)
+    return pos
 
 
 def grid_stack(layout, shape, seed):
@@ -780,12 +865,30 @@ def check_gridded(acc, case, seed):
 # evaluation-history exploration (shape A)
 # --------------------------------------------------------------------------
 HIST_ROOTS = {
-    # name: (kind, layout/shape, order, data shape, oversampling)
-    'g2x3': ('gridded', '2x3', 'xmajor', (7, 9), 2),
-    'g3x3irr': ('gridded', '3x3irr', 'ident', (8, 8), (2, 3)),
-    'g1x3': ('gridded', '1x3', 'ident', (7, 9), 1),
-    'image': ('image', None, None, (7, 9), (2, 3)),
+    # name: (kind, layout/shape, order, data shape, oversampling, mode)
+    # mode 'mixed': few positions of every kind x every operation (parameter / attribute assignments included), deep;
+    # mode 'cells': a position in EVERY grid cell (cell_positions) x {call, evaluate(), call on a copy / deepcopy,
+    #               replace by copy / deepcopy}: every ordered pair of cells, with and without a copy in between
+    'g2x3': ('gridded', '2x3', 'xmajor', (7, 9), 2, 'mixed'),
+    'g3x3irr': ('gridded', '3x3irr', 'ident', (8, 8), (2, 3), 'mixed'),
+    'g1x3': ('gridded', '1x3', 'ident', (7, 9), 1, 'mixed'),
+    'image': ('image', None, None, (7, 9), (2, 3), 'mixed'),
+    'c3x5w': ('gridded', '3x5w', 'xmajor', (7, 9), 2, 'cells'),
+    'c5x3t': ('gridded', '5x3t', 'ident', (8, 8), (2, 3), 'cells'),
+    'c3x6w': ('gridded', '3x6w', 'ident', (7, 9), (2, 3), 'cells'),
+    'c6x4t': ('gridded', '6x4t', 'xmajor', (8, 8), 1, 'cells'),
+    # mode 'cells-deep': the same position alphabet x {call, replace by copy, replace by deepcopy} only, one level deeper
+    # (three evaluations: return to a cell after visiting another one; evaluate, copy, evaluate)
+    'd3x5w': ('gridded', '3x5w', 'ident', (8, 8), (2, 3), 'cells-deep'),
+    'd5x3t': ('gridded', '5x3t', 'xmajor', (7, 9), 2, 'cells-deep'),
+    'd3x6w': ('gridded', '3x6w', 'xmajor', (8, 8), 1, 'cells-deep'),
+    'd6x4t': ('gridded', '6x4t', 'ident', (7, 9), (2, 3), 'cells-deep'),
 }
+THOROUGH_ONLY_ROOTS = ('c3x6w', 'c6x4t', 'd3x6w', 'd6x4t')
+
+
+def hist_roots(tier):
+    return [r for r in HIST_ROOTS if tier == 'thorough' or r not in THOROUGH_ONLY_ROOTS]
 
 
 class HState:
@@ -837,9 +940,15 @@ class HistSystem:
         self.root = root
         self.tier = tier
         self.seed = seed
-        self.kind, self.layout, order, self.shape, self.ov0 = HIST_ROOTS[root]
+        self.kind, self.layout, order, self.shape, self.ov0, self.mode = HIST_ROOTS[root]
         g1, g2 = _generic(seed)
-        if self.kind == 'gridded':
+        if self.kind == 'gridded' and self.mode in ('cells', 'cells-deep'):
+            xg, yg = LAYOUTS[self.layout]
+            n = len(xg) * len(yg)
+            self.order = list(range(n)) if order == 'ident' else [iy * len(xg) + ix for ix in range(len(xg)) for iy in range(len(yg))]
+            self.position_kinds = [k for k, _ in cell_positions(self.layout, seed)]
+            self.positions = [p for _, p in cell_positions(self.layout, seed)]
+        elif self.kind == 'gridded':
             xg, yg = LAYOUTS[self.layout]
             n = len(xg) * len(yg)
             self.order = list(range(n)) if order == 'ident' else [iy * len(xg) + ix for ix in range(len(xg)) for iy in range(len(yg))]
@@ -884,6 +993,14 @@ class HistSystem:
 
     def ops(self, st):
         npos = len(self.positions)
+        if self.mode == 'cells':
+            # every position x every way of evaluating there; parameter / attribute assignments are explored by the
+            # 'mixed' roots
+            return ([('eval', k) for k in range(npos)] + [('copy',), ('deepcopy',)]
+                    + [('copy_eval', k) for k in range(npos)] + [('deepcopy_eval', k) for k in range(npos)]
+                    + [('evaluate', k) for k in range(npos)])
+        if self.mode == 'cells-deep':
+            return [('eval', k) for k in range(npos)] + [('copy',), ('deepcopy',)]
         ops = [('eval', k) for k in range(npos)]
         ops += [('evaluate', 1), ('evaluate', 3)]
         ops += [('set_flux', 2.5), ('copy',), ('deepcopy',), ('copy_eval', 0), ('copy_eval', 2), ('deepcopy_eval', 2),
@@ -1147,7 +1264,7 @@ def image_cases(tier, seed):
 
 def gridded_cases(tier, seed):
     thorough = tier == 'thorough'
-    layouts = ['2x2', '2x3', '3x3irr', '1x3', '3x1', '1x1'] + (['3x2', '4x4'] if thorough else [])
+    layouts = ['2x2', '2x3', '3x3irr', '1x3', '3x1', '1x1', '3x5w', '5x3t'] + (['3x2', '4x4', '3x6w', '6x4t'] if thorough else [])
     for layout in layouts:
         for oi, order in enumerate(grid_orders(layout, tier)):
             for shape in ([[7, 9], [8, 8]] if (thorough or oi == 0) else [[7, 9]]):
@@ -1164,6 +1281,10 @@ SHARDS = {'prf': 8, 'psf': 12, 'halfmax': 1, 'linear': 1, 'pair': 4, 'pixint': 8
 
 
 def hist_depth(root, tier):
+    if HIST_ROOTS[root][5] == 'cells':
+        return 2          # every ordered pair of (position, way of evaluating)
+    if HIST_ROOTS[root][5] == 'cells-deep':
+        return 4 if (tier == 'thorough' and root not in THOROUGH_ONLY_ROOTS) else 3
     if tier == 'thorough':
         return 4
     return 3
@@ -1176,11 +1297,14 @@ def plan(tier, seed):
         n = n * mult if part not in ('halfmax', 'linear') else n
         for j in range(n):
             units.append({'kind': part, 'shard': j, 'nshards': n})
-    for root in HIST_ROOTS:
+    for root in hist_roots(tier):
         sysm = HistSystem(root, tier, seed)
         nops = len(sysm.ops(None))
-        for i in range(nops):
-            units.append({'kind': 'hist', 'root': root, 'depth': hist_depth(root, tier), 'first': [i]})
+        depth = hist_depth(root, tier)
+        # one unit per first operation; the shallow (depth 2) roots are sharded into groups of 8 first operations
+        step = 8 if depth <= 2 else 1
+        for i in range(0, nops, step):
+            units.append({'kind': 'hist', 'root': root, 'depth': depth, 'first': list(range(i, min(i + step, nops)))})
     # slowest first
     units.sort(key=lambda u: 0 if u['kind'] == 'hist' else 1)
     return units
@@ -1243,8 +1367,15 @@ def describe(tier, seed):
         sizes[part] = sum(1 for _ in functional_cases(part, tier, seed))
     sizes['image'] = sum(1 for _ in image_cases(tier, seed))
     sizes['gridded'] = sum(1 for _ in gridded_cases(tier, seed))
-    hs = {r: {'depth': hist_depth(r, tier), 'ops': len(HistSystem(r, tier, seed).ops(None)),
-              'positions': [list(p) for p in HistSystem(r, tier, seed).positions]} for r in HIST_ROOTS}
+    hs = {}
+    for r in hist_roots(tier):
+        h = HistSystem(r, tier, seed)
+        hs[r] = {'depth': hist_depth(r, tier), 'ops': len(h.ops(None)), 'mode': h.mode, 'layout': h.layout,
+                 'positions': [list(p) for p in h.positions]}
+        if h.mode in ('cells', 'cells-deep'):
+            hs[r]['position_kinds'] = h.position_kinds
+            hs[r]['cells_rows_x_columns'] = [len(LAYOUTS[h.layout][1]) - 1, len(LAYOUTS[h.layout][0]) - 1]
+            hs[r]['operations'] = sorted({op[0] for op in h.ops(None)})
     return {'alphabet': {k: [list(v) if isinstance(v, tuple) else v for v in vals] for k, vals in A.items()},
             'product_sizes': sizes,
             'gridded_layouts': {k: [list(map(float, v[0])), list(map(float, v[1]))] for k, v in LAYOUTS.items()},
